@@ -451,7 +451,8 @@ def gen_noise(rng):
     return "".join(rng.choice(NOISE + WS + ["a", "b", "1", "-"]) for _ in range(rng.randint(1, 5)))
 
 
-INT_POOL = ["0", "1", "-1", "5", "100", "101", "999", "1000", "65535", "65536", "3600000", "3600001", "10000",
+INT_POOL = ["9007199254740993", "9007199254740992", "-9007199254740993", "9223372036854775807", "18446744073709551617",
+            "1000000000000000001", "10.0", "0", "1", "-1", "5", "100", "101", "999", "1000", "65535", "65536", "3600000", "3600001", "10000",
             " 7 ", "+3", "-0", "1_000", "١٢٣", "٣", "9" * 25, "9" * 4300, "9" * 4301, "1.0", "1e3", "0x10", "",
             " ", "12a", "\\n5", "5\\n", "５"]
 FLOAT_POOL = ["0", "0.0", "1.5", "-1.5", "1e3", "1e-3", "nan", "NaN", "-nan", "inf", "-inf", "Infinity",
